@@ -6,6 +6,8 @@ macro_rules! indexset { () => { index_set_new() }; }
 verus! {
 /*@include shims/rt.rs @*/
 /*@include shims/bytes.rs @*/
+/*@include shims/decimal.rs @*/
+/*@include shims/decimal_attos.rs @*/
 
 pub mod env {
     use vstd::prelude::*;
@@ -69,6 +71,67 @@ pub mod env {
             { unimplemented!() }
         }
 
+        impl<D> SubstateLocks<D> {
+            /// ASSUMED contract of `lock` = what unit c13_substate_locks proves: Some(h) ==> a FRESH handle now maps to exactly
+            /// the given substate and data; None ==> nothing changes
+            #[verifier::external_body]
+            pub fn lock(&mut self, node_id: &NodeId, partition_num: PartitionNumber, substate_key: &SubstateKey, read_only: bool, data: D) -> (r: Option<u32>)
+                ensures match r {
+                    Some(h) => !old(self).locks().contains_key(h) && final(self).locks() == old(self).locks().insert(h, (*node_id, partition_num, *substate_key, data)),
+                    None => final(self).locks() == old(self).locks(),
+                }
+            { unimplemented!() }
+        }
+        impl IndexedScryptoValue {
+            #[verifier::external_body]
+            pub fn owned_nodes(&self) -> (r: &Vec<NodeId>) { unimplemented!() }
+        }
+        impl Clone for SubstateKey {
+            #[verifier::external_body]
+            fn clone(&self) -> (r: Self) ensures r == *self { unimplemented!() }
+        }
+        pub mod error_models {
+            use vstd::prelude::*;
+            pub struct OwnedNodeId(pub super::NodeId);
+            impl From<super::NodeId> for OwnedNodeId {
+                fn from(n: super::NodeId) -> (r: OwnedNodeId) ensures r.0 == n { OwnedNodeId(n) }
+            }
+            impl vstd::std_specs::convert::FromSpecImpl<super::NodeId> for OwnedNodeId {
+                open spec fn obeys_from_spec() -> bool { true }
+                open spec fn from_spec(n: super::NodeId) -> OwnedNodeId { OwnedNodeId(n) }
+            }
+            pub struct ReferencedNodeId(pub super::NodeId);
+        }
+        pub struct ProcessSubstateKeyError;
+        /// track/interface.rs
+        pub enum CallbackError<E, C> { Error(E), CallbackError(C) }
+        pub enum TrackedSubstateInfo { New, Updated, Unmodified }
+        pub trait IOAccessHandler<E> {}
+        use super::super::unit::io::{SubstateIO, SubstateDevice, LockData, OpenSubstateError};
+        impl<'g, S: CommitableSubstateStore + 'g> SubstateIO<'g, S> {
+            /// substate_io.rs get_substate_internal (private, NOT under contract): reads the substate from the heap or through
+            /// the track. ASSUMED: the force-write log is untouched; a substate read through the store is tracked afterwards
+            /// (MappedTrack::get_substate -> get_tracked_substate inserts the entry; unit c12_track)
+            #[verifier::external_body]
+            pub fn get_substate_internal<'a, E>(heap: &'a mut Heap, store: &'a mut S, location: SubstateDevice, node_id: &NodeId,
+                    partition_num: PartitionNumber, substate_key: &SubstateKey, handler: &mut impl IOAccessHandler<E>)
+                    -> (r: Result<Option<&'a IndexedScryptoValue>, CallbackError<OpenSubstateError, E>>)
+                ensures
+                    final(store).forced() == old(store).forced(),
+                    forall|id: SubstateId| old(store).is_tracked(id) ==> final(store).is_tracked(id),
+                    r is Ok && location is Store ==> final(store).is_tracked((*node_id, partition_num, *substate_key)),
+                    r matches Err(e) ==> e is CallbackError || (e matches CallbackError::Error(x) && !(x is LockUnmodifiedBaseOnHeapNode)
+                        && !(x is LockUnmodifiedBaseOnNewSubstate) && !(x is LockUnmodifiedBaseOnOnUpdatedSubstate)),
+            { unimplemented!() }
+            /// what is cut from open_substate by @drop-tail: picking the value to hand back (the stored one, or the virtualized
+            /// default kept in the lock data) -- a closure borrowing `self.substate_locks`, not expressible in Verus
+            #[verifier::external_body]
+            pub fn open_substate_value_tail<'a, E>(locks: &'a SubstateLocks<LockData>, global_lock_handle: u32, substate_value: Option<&'a IndexedScryptoValue>)
+                    -> (r: Result<(u32, &'a IndexedScryptoValue), CallbackError<OpenSubstateError, E>>)
+                ensures r matches Ok(t) && t.0 == global_lock_handle
+            { unimplemented!() }
+        }
+
         /// track/interface.rs CommitableSubstateStore, reduced to `force_write`. Ghost state: the LOG of force_write calls
         /// (= what ends up in MappedTrack::force_write_tracked_nodes, unit c12_track) and which substates are tracked.
         /// `force_write` on an untracked substate panics in the real track ("Should not need to go into store on close
@@ -76,6 +139,10 @@ pub mod env {
         pub trait CommitableSubstateStore: Sized {
             spec fn forced(&self) -> Seq<SubstateId>;
             spec fn is_tracked(&self, id: SubstateId) -> bool;
+            /// New = created / written by this transaction without a committed base, Updated = committed value overwritten, Unmodified
+            spec fn info(&self, id: SubstateId) -> TrackedSubstateInfo;
+            fn get_tracked_substate_info(&mut self, node_id: &NodeId, partition_num: PartitionNumber, substate_key: &SubstateKey) -> (r: TrackedSubstateInfo)
+                ensures *final(self) == *old(self), r == old(self).info((*node_id, partition_num, *substate_key));
             fn force_write(&mut self, node_id: &NodeId, partition_num: &PartitionNumber, substate_key: &SubstateKey)
                 requires old(self).is_tracked((*node_id, *partition_num, *substate_key))
                 ensures final(self).forced() == old(self).forced().push((*node_id, *partition_num, *substate_key)),
@@ -514,7 +581,9 @@ pub mod env {
             fn kernel_get_system(&mut self) -> (r: &mut System)
                 ensures *r == old(self).sys(), final(self).sys() == *final(r), final(self).st() == old(self).st();
 
-            fn kernel_get_current_stack_id_uncosted(&self) -> (r: usize);
+            /// the intent (stack) the current call frame belongs to: 0 = the root transaction intent
+            spec fn stack_id(&self) -> usize;
+            fn kernel_get_current_stack_id_uncosted(&self) -> (r: usize) ensures r == self.stack_id();
 
             /// THE SENSITIVE CALLEE: a special flag (FORCE_WRITE / UNMODIFIED_BASE) reaches the kernel only for a field of a
             /// fungible-vault object. The kernel stores `flags` with the handle (substate_io.rs LockData).
@@ -585,6 +654,269 @@ pub mod env {
         pub const ACTOR_STATE_OUTER_OBJECT: ActorStateHandle = /*@expr-after radix-engine-interface/src/api/mod.rs :: const ACTOR_STATE_OUTER_OBJECT :: <<ActorStateHandle =>> @*/;
     }
 
+    // ==================================================================================================
+    // environment of the fungible vault BLUEPRINT (radix-engine-interface SystemApi as a ghost heap) -- adapted from
+    // unit c03_fungible_supply, extended with lock flags on handles, the force-write log and the fee reserve credits
+    // ==================================================================================================
+    pub mod bp {
+        use vstd::prelude::*;
+        use super::super::decimal::*;
+        use super::super::decimal::Decimal;
+        use super::{NodeId, LockFlags, fw};
+        use super::super::unit::vault::{VaultError, LiquidFungibleResource, VaultFrozenFlag};
+
+        /// radix-common ResourceAddress: a new-type over NodeId; `new_or_panic` PANICS unless the entity-type byte is a
+        /// resource's (GlobalFungibleResourceManager / GlobalNonFungibleResourceManager)
+        #[derive(Clone, Copy)]
+        pub struct ResourceAddress(pub NodeId);
+        pub uninterp spec fn is_resource_entity(raw: [u8; 30]) -> bool;
+        impl ResourceAddress {
+            #[verifier::external_body]
+            pub fn new_or_panic(raw: [u8; 30]) -> (r: Self) requires is_resource_entity(raw) ensures r == ResourceAddress(NodeId(raw)) { unimplemented!() }
+        }
+        impl PartialEq for ResourceAddress {
+            #[verifier::external_body]
+            fn eq(&self, other: &Self) -> (r: bool) ensures r == (*self == *other) { unimplemented!() }
+        }
+        impl vstd::std_specs::cmp::PartialEqSpecImpl for ResourceAddress {
+            open spec fn obeys_eq_spec() -> bool { true }
+            open spec fn eq_spec(&self, other: &Self) -> bool { *self == *other }
+        }
+        /// radix-common `impl From<NodeId> for [u8; NodeId::LENGTH]`
+        impl From<NodeId> for [u8; 30] {
+            fn from(n: NodeId) -> (r: [u8; 30]) ensures r == n.0 { n.0 }
+        }
+        impl vstd::std_specs::convert::FromSpecImpl<NodeId> for [u8; 30] {
+            open spec fn obeys_from_spec() -> bool { true }
+            open spec fn from_spec(n: NodeId) -> [u8; 30] { n.0 }
+        }
+        pub const XRD: ResourceAddress = ResourceAddress(NodeId(/*@expr-after radix-common/src/constants/native_addresses.rs :: const XRD :: <<new_or_panic(>> @*/));
+
+        /// RuntimeError / ApplicationError (radix-engine/src/errors.rs) reduced to what is built here;
+        /// `Environment` stands for every error that only the system itself raises (kernel, system, costing ..)
+        pub enum ApplicationError { VaultError(VaultError), Other }
+        pub enum RuntimeError { ApplicationError(ApplicationError), Environment }
+        pub struct ProofError;
+        #[verifier::external_body]
+        pub struct NonFungibleLocalId { x: Vec<u8> }
+
+        // ---- field API ------------------------------------------------------------------------------------
+        pub type FieldHandle = u32;
+        pub type FieldIndex = u8;
+        pub type ActorStateHandle = u32;
+        pub type ActorRefHandle = u32;
+        pub const ACTOR_STATE_SELF: ActorStateHandle = /*@expr-after radix-engine-interface/src/api/mod.rs :: const ACTOR_STATE_SELF :: <<ActorStateHandle =>> @*/;
+        pub const ACTOR_STATE_OUTER_OBJECT: ActorStateHandle = /*@expr-after radix-engine-interface/src/api/mod.rs :: const ACTOR_STATE_OUTER_OBJECT :: <<ActorStateHandle =>> @*/;
+        pub const ACTOR_REF_OUTER: ActorRefHandle = /*@expr-after radix-engine-interface/src/api/mod.rs :: const ACTOR_REF_OUTER :: <<ActorRefHandle =>> @*/;
+        /// a field of the current actor (SELF) or of its outer object (for a vault: the resource manager)
+        pub type FieldRef = (ActorStateHandle, FieldIndex);
+        /// bitflags `|`
+        impl core::ops::BitOr for LockFlags {
+            type Output = LockFlags;
+            fn bitor(self, o: LockFlags) -> (r: LockFlags) ensures r.bits == self.bits | o.bits { LockFlags { bits: self.bits | o.bits } }
+        }
+        impl vstd::std_specs::ops::BitOrSpecImpl<LockFlags> for LockFlags {
+            open spec fn obeys_bitor_spec() -> bool { true }
+            open spec fn bitor_req(self, o: LockFlags) -> bool { true }
+            open spec fn bitor_spec(self, o: LockFlags) -> LockFlags { LockFlags { bits: self.bits | o.bits } }
+        }
+        pub open spec fn is_mutable(flags: LockFlags) -> bool { flags.bits & 1 == 1 }
+
+        /// `declare_native_blueprint_state!{ blueprint_ident: FungibleResourceManager, fields: { divisibility, total_supply } }`
+        /// generates a `#[repr(u8)]` enum in declaration order with `From<..> for u8` (= discriminant)
+        pub enum FungibleResourceManagerField { Divisibility, TotalSupply }
+        pub open spec fn frm_idx(f: FungibleResourceManagerField) -> FieldIndex {
+            match f { FungibleResourceManagerField::Divisibility => 0u8, FungibleResourceManagerField::TotalSupply => 1u8 }
+        }
+        impl From<FungibleResourceManagerField> for u8 {
+            fn from(f: FungibleResourceManagerField) -> (r: u8) ensures r == frm_idx(f)
+            { match f { FungibleResourceManagerField::Divisibility => 0u8, FungibleResourceManagerField::TotalSupply => 1u8 } }
+        }
+        impl vstd::std_specs::convert::FromSpecImpl<FungibleResourceManagerField> for u8 {
+            open spec fn obeys_from_spec() -> bool { true }
+            open spec fn from_spec(f: FungibleResourceManagerField) -> u8 { frm_idx(f) }
+        }
+        /// `declare_native_blueprint_state!{ blueprint_ident: FungibleVault, fields: { balance, locked_balance, freeze_status } }`
+        pub enum FungibleVaultField { Balance, LockedBalance, FreezeStatus }
+        pub open spec fn vault_idx(f: FungibleVaultField) -> FieldIndex {
+            match f { FungibleVaultField::Balance => 0u8, FungibleVaultField::LockedBalance => 1u8, FungibleVaultField::FreezeStatus => 2u8 }
+        }
+        impl From<FungibleVaultField> for u8 {
+            fn from(f: FungibleVaultField) -> (r: u8) ensures r == vault_idx(f)
+            { match f { FungibleVaultField::Balance => 0u8, FungibleVaultField::LockedBalance => 1u8, FungibleVaultField::FreezeStatus => 2u8 } }
+        }
+        impl vstd::std_specs::convert::FromSpecImpl<FungibleVaultField> for u8 {
+            open spec fn obeys_from_spec() -> bool { true }
+            open spec fn from_spec(f: FungibleVaultField) -> u8 { vault_idx(f) }
+        }
+        /// the vault's fields when it is the actor: liquid balance, lock table, freeze status; the resource manager's
+        /// divisibility seen as outer object
+        pub open spec fn C_BAL() -> FieldRef { (0u32, 0u8) }
+        pub open spec fn V_FREEZE() -> FieldRef { (0u32, 2u8) }
+        pub open spec fn O_DIV() -> FieldRef { (1u32, 0u8) }
+
+        /// radix-engine-interface vault.rs `bitflags!{ struct VaultFreezeFlags: u32 { WITHDRAW = 1, DEPOSIT = 2, BURN = 4 } }`
+        pub struct VaultFreezeFlags { pub bits: u32 }
+        impl VaultFreezeFlags {
+            pub const WITHDRAW: VaultFreezeFlags = VaultFreezeFlags { bits: 1 };
+            pub const DEPOSIT: VaultFreezeFlags = VaultFreezeFlags { bits: 2 };
+            pub const BURN: VaultFreezeFlags = VaultFreezeFlags { bits: 4 };
+            /// bitflags `intersects`: some flag in common
+            pub fn intersects(&self, other: VaultFreezeFlags) -> (r: bool) ensures r == ((self.bits & other.bits) != 0) { (self.bits & other.bits) != 0 }
+        }
+        /// the `features:` of the resource manager's macro invocation. `feature_name()` is `stringify!(<property name>)`: five
+        /// distinct strings, so the name determines the feature (`feature_of`, uninterpreted inverse).
+        pub enum FungibleResourceManagerFeature { TrackTotalSupply, VaultFreeze, VaultRecall, Mint, Burn }
+        pub uninterp spec fn feature_of(name: Seq<char>) -> FungibleResourceManagerFeature;
+        impl FungibleResourceManagerFeature {
+            #[verifier::external_body]
+            pub fn feature_name(&self) -> (r: &'static str) ensures feature_of(r@) == *self { unimplemented!() }
+        }
+
+        // ---- ghost heap -------------------------------------------------------------------------------------
+        pub enum GhostVal { Divisibility(u8), Liquid(Decimal), Frozen(VaultFrozenFlag), Other }
+        pub ghost struct State {
+            /// fields of the current actor (SELF = the vault) and of its outer object (the resource manager)
+            pub fields: Map<FieldRef, GhostVal>,
+            /// open field handles -> (field, the lock flags it was opened with)
+            pub handles: Map<FieldHandle, (FieldRef, LockFlags)>,
+            /// features the outer object (the resource manager) was instantiated with (immutable)
+            pub features: Set<(ActorStateHandle, FungibleResourceManagerFeature)>,
+            /// the node id of the actor's outer object = the address of the vault's resource
+            pub outer: NodeId,
+            /// is the costing module enabled (fixed for the transaction)
+            pub costing: bool,
+            /// the fields that were FORCE-WRITTEN: a handle opened with FORCE_WRITE was closed (kernel: close_substate ->
+            /// Track::force_write) -- they keep their value when the transaction fails
+            pub forced: Seq<FieldRef>,
+            /// credits to the fee reserve made through SystemCostingApi::lock_fee: (amount, contingent)
+            pub fee_locks: Seq<(Decimal, bool)>,
+            /// how often start_lock_fee answered "costing disabled" (it then stores the simulated LockFeeEvent itself)
+            pub simulated: nat,
+        }
+        /// spec view of a typed payload (stands for ScryptoEncode / ScryptoDecode of the payload type)
+        pub trait VerifPayload: Sized {
+            spec fn accepts(v: GhostVal) -> bool;
+            spec fn ghost(&self) -> GhostVal;
+        }
+        /// ASSUMED: the system API itself fails with kernel / system / module errors only, never with a
+        /// blueprint-level `RuntimeError::ApplicationError`.
+        pub trait SystemApiError: Sized { spec fn is_application_error(&self) -> bool; }
+        impl SystemApiError for RuntimeError {
+            open spec fn is_application_error(&self) -> bool { *self is ApplicationError }
+        }
+        /// C02 at blueprint level (written from the statement "changes only the balances of the XRD vaults that locked
+        /// fees"): the only field blueprint code may open with FORCE_WRITE is the LIQUID BALANCE of a vault of XRD
+        pub open spec fn force_write_target_ok(s: State, f: FieldRef) -> bool { f == C_BAL() && ResourceAddress(s.outer) == XRD }
+
+        /// Ghost-heap model of the part of radix-engine-interface SystemApi used by the fungible vault (actor_api.rs,
+        /// field_api.rs, costing_api.rs). Any call may fail for reasons of its own (costing, limits, substate locks):
+        /// an `Err` changes nothing. `field_read_typed` decodes with `.unwrap()`: reading a field whose value is not of
+        /// the requested type is a panic, hence a precondition.
+        pub trait SystemApi<E: SystemApiError>: Sized {
+            spec fn state(&self) -> State;
+
+            /// THE SENSITIVE CALLEE at blueprint level (system.rs actor_open_field, under contract in `unit::sys`, lets a
+            /// fungible vault pass FORCE_WRITE for ANY of its fields)
+            fn actor_open_field(&mut self, object_handle: ActorStateHandle, field: FieldIndex, flags: LockFlags) -> (r: Result<FieldHandle, E>)
+                requires
+                    object_handle == ACTOR_STATE_SELF || object_handle == ACTOR_STATE_OUTER_OBJECT,
+                    fw(flags) ==> force_write_target_ok(old(self).state(), (object_handle, field)),
+                ensures
+                    r matches Ok(h) ==> !old(self).state().handles.contains_key(h)
+                        && final(self).state() == (State { handles: old(self).state().handles.insert(h, ((object_handle, field), flags)), ..old(self).state() }),
+                    r is Err ==> final(self).state() == old(self).state(),
+                    r matches Err(e) ==> !e.is_application_error();
+
+            fn field_read_typed<S: VerifPayload>(&mut self, handle: FieldHandle) -> (r: Result<S, E>)
+                requires
+                    old(self).state().handles.contains_key(handle),
+                    old(self).state().fields.contains_key(old(self).state().handles[handle].0),
+                    S::accepts(old(self).state().fields[old(self).state().handles[handle].0]),
+                ensures
+                    final(self).state() == old(self).state(),
+                    r matches Ok(s) ==> s.ghost() == old(self).state().fields[old(self).state().handles[handle].0],
+                    r matches Err(e) ==> !e.is_application_error();
+
+            fn field_write_typed<S: VerifPayload>(&mut self, handle: FieldHandle, substate: &S) -> (r: Result<(), E>)
+                requires
+                    old(self).state().handles.contains_key(handle),
+                    is_mutable(old(self).state().handles[handle].1),
+                ensures
+                    r is Ok ==> final(self).state() == (State { fields: old(self).state().fields.insert(old(self).state().handles[handle].0, substate.ghost()), ..old(self).state() }),
+                    r is Err ==> final(self).state() == old(self).state(),
+                    r matches Err(e) ==> !e.is_application_error();
+
+            /// closing a handle that was opened with FORCE_WRITE force-writes the field (kernel/substate_io.rs
+            /// close_substate, under contract in `unit::io`): "Force write flush only occurs if field_close succeeds"
+            fn field_close(&mut self, handle: FieldHandle) -> (r: Result<(), E>)
+                requires old(self).state().handles.contains_key(handle)
+                ensures
+                    r is Ok ==> final(self).state() == (State {
+                        handles: old(self).state().handles.remove(handle),
+                        forced: if fw(old(self).state().handles[handle].1) { old(self).state().forced.push(old(self).state().handles[handle].0) } else { old(self).state().forced },
+                        ..old(self).state() }),
+                    r is Err ==> final(self).state() == old(self).state(),
+                    r matches Err(e) ==> !e.is_application_error();
+
+            fn actor_is_feature_enabled(&mut self, object_handle: ActorStateHandle, feature: &str) -> (r: Result<bool, E>)
+                requires object_handle == ACTOR_STATE_SELF || object_handle == ACTOR_STATE_OUTER_OBJECT
+                ensures
+                    final(self).state() == old(self).state(),
+                    r matches Ok(b) ==> b == old(self).state().features.contains((object_handle, feature_of(feature@))),
+                    r matches Err(e) ==> !e.is_application_error();
+
+            /// actor_api.rs: the node id of the actor's outer object (ACTOR_REF_OUTER)
+            fn actor_get_node_id(&mut self, ref_handle: ActorRefHandle) -> (r: Result<NodeId, E>)
+                ensures
+                    final(self).state() == old(self).state(),
+                    r matches Ok(n) ==> (ref_handle == ACTOR_REF_OUTER ==> n == old(self).state().outer),
+                    r matches Err(e) ==> !e.is_application_error();
+
+            /// costing_api.rs start_lock_fee (system.rs, under contract in `unit::sys`): answers whether costing is enabled;
+            /// if not, it stores the simulated LockFeeEvent itself
+            fn start_lock_fee(&mut self, amount: Decimal, contingent: bool) -> (r: Result<bool, E>)
+                ensures
+                    r matches Ok(b) ==> b == old(self).state().costing
+                        && final(self).state() == (State { simulated: if b { old(self).state().simulated } else { old(self).state().simulated + 1 }, ..old(self).state() }),
+                    r is Err ==> final(self).state() == old(self).state(),
+                    r matches Err(e) ==> !e.is_application_error();
+
+            /// costing_api.rs lock_fee (system.rs, under contract in `unit::sys`): credits the fee reserve in the name of the
+            /// actor (the vault) and stores the FORCE_WRITE LockFeeEvent; PANICS when costing is disabled. Cannot fail.
+            fn lock_fee(&mut self, locked_fee: LiquidFungibleResource, contingent: bool)
+                requires old(self).state().costing
+                ensures final(self).state() == (State { fee_locks: old(self).state().fee_locks.push((locked_fee.amount, contingent)), ..old(self).state() });
+        }
+
+        // ---- versioned payload wrappers (macro generated in /repo): a payload is its latest-version content ----
+        pub struct FungibleResourceManagerDivisibilityFieldPayload { pub content: u8 }
+        impl VerifPayload for FungibleResourceManagerDivisibilityFieldPayload {
+            open spec fn accepts(v: GhostVal) -> bool { v is Divisibility }
+            open spec fn ghost(&self) -> GhostVal { GhostVal::Divisibility(self.content) }
+        }
+        impl FungibleResourceManagerDivisibilityFieldPayload {
+            pub fn fully_update_and_into_latest_version(self) -> (r: u8) ensures r == self.content { self.content }
+        }
+        pub struct FungibleVaultBalanceFieldPayload { pub content: LiquidFungibleResource }
+        impl VerifPayload for FungibleVaultBalanceFieldPayload {
+            open spec fn accepts(v: GhostVal) -> bool { v is Liquid }
+            open spec fn ghost(&self) -> GhostVal { GhostVal::Liquid(self.content.amount) }
+        }
+        impl FungibleVaultBalanceFieldPayload {
+            pub fn fully_update_and_into_latest_version(self) -> (r: LiquidFungibleResource) ensures r == self.content { self.content }
+            pub fn from_content_source(c: LiquidFungibleResource) -> (r: Self) ensures r.content == c { Self { content: c } }
+        }
+        pub struct FungibleVaultFreezeStatusFieldPayload { pub content: VaultFrozenFlag }
+        impl VerifPayload for FungibleVaultFreezeStatusFieldPayload {
+            open spec fn accepts(v: GhostVal) -> bool { v is Frozen }
+            open spec fn ghost(&self) -> GhostVal { GhostVal::Frozen(self.content) }
+        }
+        impl FungibleVaultFreezeStatusFieldPayload {
+            pub fn fully_update_and_into_latest_version(self) -> (r: VaultFrozenFlag) ensures r == self.content { self.content }
+        }
+    }
+
 }
 
 pub mod unit {
@@ -610,12 +942,42 @@ pub mod unit {
         @*/
         /*@item radix-engine/src/kernel/substate_io.rs :: struct SubstateIO
         @*/
+        /*@item radix-engine/src/kernel/call_frame.rs :: enum OpenSubstateError
+        @derive
+        @*/
 
         /// ORACLE: the substate a handle stands for, and whether it was opened with FORCE_WRITE
         pub open spec fn id_of(e: (NodeId, PartitionNumber, SubstateKey, LockData)) -> SubstateId { (e.0, e.1, e.2) }
         pub open spec fn opened_force_write(e: (NodeId, PartitionNumber, SubstateKey, LockData)) -> bool { fw(e.3.flags) }
 
         impl<'g, S: CommitableSubstateStore + 'g> SubstateIO<'g, S> {
+
+            /// the kernel's open: the flags are stored verbatim with the handle; UNMODIFIED_BASE is refused on heap nodes and on
+            /// substates this transaction already created / wrote
+            /*@fn radix-engine/src/kernel/substate_io.rs :: impl<'g, S: CommitableSubstateStore + 'g> SubstateIO<'g, S> :: fn open_substate
+            @sig
+                requires default matches Some(f) ==> f.requires(())
+                ensures
+                    *final(final(self).store) == *final(old(self).store),
+                    final(self).store.forced() == old(self).store.forced(),
+                    ret matches Ok(t) ==> !old(self).substate_locks.locks().contains_key(t.0)
+                        && final(self).substate_locks.locks().contains_key(t.0)
+                        && final(self).substate_locks.locks() == old(self).substate_locks.locks().insert(t.0, final(self).substate_locks.locks()[t.0])
+                        && id_of(final(self).substate_locks.locks()[t.0]) == (*node_id, partition_num, *substate_key)
+                        // the flags the caller passed are the flags close_substate will consult
+                        && final(self).substate_locks.locks()[t.0].3.flags == flags
+                        // UNMODIFIED_BASE: only on a store substate whose committed base this transaction has not touched
+                        && (flags.has(LockFlags::UNMODIFIED_BASE) ==> device is Store
+                                && old(self).store.info((*node_id, partition_num, *substate_key)) is Unmodified)
+                        // a store substate is tracked once it is open (what close_substate's force_write needs)
+                        && (device is Store ==> final(self).store.is_tracked((*node_id, partition_num, *substate_key))),
+                    ret is Err ==> final(self).substate_locks.locks() == old(self).substate_locks.locks(),
+                    flags.has(LockFlags::UNMODIFIED_BASE) && device is Heap
+                        ==> ret == Err::<(u32, &IndexedScryptoValue), CallbackError<OpenSubstateError, E>>(CallbackError::Error(OpenSubstateError::LockUnmodifiedBaseOnHeapNode)),
+                    flags.has(LockFlags::UNMODIFIED_BASE) && device is Store && !(old(self).store.info((*node_id, partition_num, *substate_key)) is Unmodified)
+                        ==> (ret matches Err(CallbackError::Error(x)) && (x is LockUnmodifiedBaseOnNewSubstate || x is LockUnmodifiedBaseOnOnUpdatedSubstate)),
+            @drop-tail <<let global_lock_handle = match>> #1 => return Self::open_substate_value_tail(&self.substate_locks, global_lock_handle, substate_value);
+            @*/
             /*@fn radix-engine/src/kernel/substate_io.rs :: impl<'g, S: CommitableSubstateStore + 'g> SubstateIO<'g, S> :: fn close_substate
             @sig
                 requires
@@ -1244,6 +1606,8 @@ pub mod unit {
                     *final(final(self).api) == *final(old(self).api),
                     final(self).api.sys().modules.fee_locks() == old(self).api.sys().modules.fee_locks(),
                     final(self).api.sys().modules.enabled_modules == old(self).api.sys().modules.enabled_modules,
+                    // "Child subintents are only allowed to use contingent fees"
+                    !contingent && old(self).api.stack_id() != 0 ==> ret == Err::<bool, RuntimeError>(RuntimeError::SystemError(SystemError::CannotLockFeeInChildSubintent(old(self).api.stack_id()))),
                     // the answer: is the costing module enabled (then the vault goes on to take the fee)
                     ret matches Ok(b) ==> b == old(self).api.sys().modules.enabled_modules.has(EnabledModules::COSTING),
                     // costing enabled, or any failure: no event
@@ -1257,6 +1621,332 @@ pub mod unit {
             @entry
                 proof { assert(1u32 & 1u32 == 1u32) by (bit_vector); }
             @*/
+        }
+    }
+
+    // ==================================================================================================
+    // (4) blueprints/resource/fungible/fungible_vault.rs :: FungibleVaultBlueprint::lock_fee -- the one blueprint function
+    //     that passes FORCE_WRITE
+    // ==================================================================================================
+    pub mod vault {
+        use vstd::prelude::*;
+        use super::super::rt::*;
+        use super::super::decimal::*;
+        use super::super::decimal::Decimal;
+        use super::super::decimal_attos::*;
+        use super::super::env::*;
+        use super::super::env::bp::*;
+        use vstd::arithmetic::power::pow;
+        broadcast use {group_decimal, group_i192};
+
+        /*@item radix-engine-interface/src/blueprints/resource/resource.rs :: enum ResourceError
+        @derive
+        @*/
+        /*@item radix-engine/src/blueprints/resource/vault_common.rs :: enum VaultError
+        @derive
+        @*/
+        /*@item radix-engine-interface/src/blueprints/resource/resource.rs :: struct VaultFrozenFlag
+        @derive
+        @*/
+        /*@item radix-engine-interface/src/blueprints/resource/resource.rs :: struct LiquidFungibleResource
+        @derive
+        @*/
+        pub struct FungibleVaultBlueprint;
+
+        // ---- ORACLE ----------------------------------------------------------------------------------------
+        /// an amount a resource of divisibility `d` can hold: non-negative and a whole number of 10^(18-d) attos
+        pub open spec fn respects_divisibility(attos: int, d: int) -> bool {
+            attos >= 0 && attos % pow(10, (18 - d) as nat) == 0
+        }
+        /// what can be taken out of a container holding `bal`
+        pub open spec fn take_ok(bal: int, amt: int) -> bool { amt <= bal && in_dec(bal - amt) }
+        pub open spec fn freezable(s: State) -> bool { s.features.contains((ACTOR_STATE_OUTER_OBJECT, FungibleResourceManagerFeature::VaultFreeze)) }
+        /// a well-formed fungible vault: a liquid balance, its resource manager's divisibility visible as outer object, a
+        /// freeze status if the resource is freezable; its outer object is a resource address
+        pub open spec fn wf_vault(s: State) -> bool {
+            &&& s.fields.contains_key(C_BAL()) && s.fields[C_BAL()] is Liquid
+            &&& s.fields.contains_key(O_DIV()) && s.fields[O_DIV()] is Divisibility && s.fields[O_DIV()]->Divisibility_0 <= 18
+            &&& (freezable(s) ==> s.fields.contains_key(V_FREEZE()) && s.fields[V_FREEZE()] is Frozen)
+            &&& is_resource_entity(s.outer.0)
+        }
+        pub open spec fn frozen_for(s: State, flags: VaultFreezeFlags) -> bool {
+            freezable(s) && (s.fields[V_FREEZE()]->Frozen_0.frozen.bits & flags.bits) != 0
+        }
+        pub open spec fn balance(s: State) -> int { s.fields[C_BAL()]->Liquid_0.v() }
+        pub open spec fn outer_divisibility(s: State) -> int { s.fields[O_DIV()]->Divisibility_0 as int }
+        pub open spec fn is_xrd_vault(s: State) -> bool { ResourceAddress(s.outer) == XRD }
+        /// every field except the liquid balance is untouched
+        pub open spec fn frame_balance(f0: Map<FieldRef, GhostVal>, f1: Map<FieldRef, GhostVal>) -> bool {
+            f1.remove(C_BAL()) =~= f0.remove(C_BAL())
+        }
+        pub open spec fn handles_kept(h0: Map<FieldHandle, (FieldRef, LockFlags)>, h1: Map<FieldHandle, (FieldRef, LockFlags)>) -> bool {
+            forall|h: FieldHandle| h0.contains_key(h) ==> h1.contains_key(h) && h1[h] == h0[h]
+        }
+        /// the checks made before the fee reserve is consulted: XRD vault, not frozen for withdrawals, a legal amount
+        pub open spec fn lock_fee_request_ok(s: State, amount: Decimal) -> bool {
+            &&& is_xrd_vault(s) && !frozen_for(s, VaultFreezeFlags::WITHDRAW)
+            &&& respects_divisibility(amount.v(), outer_divisibility(s))
+        }
+        /// the request is one the vault must serve (costing enabled): ... and enough balance
+        pub open spec fn lock_fee_admissible(s: State, amount: Decimal) -> bool {
+            lock_fee_request_ok(s, amount) && take_ok(balance(s), amount.v())
+        }
+        /// the blueprint-level error for a request that is not admissible (checked in this order)
+        pub open spec fn lock_fee_app_error(s: State, amount: Decimal) -> VaultError {
+            if frozen_for(s, VaultFreezeFlags::WITHDRAW) { VaultError::VaultIsFrozen }
+            else if !is_xrd_vault(s) { VaultError::LockFeeNotRadixToken }
+            else if !respects_divisibility(amount.v(), outer_divisibility(s)) { VaultError::InvalidAmount(amount) }
+            else { VaultError::LockFeeInsufficientBalance { requested: amount, actual: s.fields[C_BAL()]->Liquid_0 } }
+        }
+        /// C02 + C03 for one fee lock that went through: the liquid balance shrank by exactly `amount`, that field was
+        /// FORCE-WRITTEN (once), and exactly `amount` was credited to the fee reserve (once) -- nothing else changed
+        pub open spec fn fee_locked(s0: State, s1: State, amount: Decimal, contingent: bool) -> bool {
+            &&& s1.fields.contains_key(C_BAL()) && s1.fields[C_BAL()] is Liquid
+            &&& balance(s1) == balance(s0) - amount.v()
+            &&& frame_balance(s0.fields, s1.fields)
+            &&& s1.forced == s0.forced.push(C_BAL())
+            &&& s1.fee_locks == s0.fee_locks.push((amount, contingent))
+            &&& s1.handles =~= s0.handles && s1.features == s0.features && s1.outer == s0.outer && s1.costing == s0.costing && s1.simulated == s0.simulated
+        }
+
+        /// bit facts about the three lock flags (MUTABLE = 1, UNMODIFIED_BASE = 2, FORCE_WRITE = 4)
+        pub proof fn lemma_flag_bits()
+            ensures !fw(LockFlags { bits: 0 }), !fw(LockFlags { bits: 1 }),
+                    fw(LockFlags { bits: (1u32 | 2u32) | 4u32 }), is_mutable(LockFlags { bits: (1u32 | 2u32) | 4u32 }),
+        {
+            assert(0u32 & 4u32 != 4u32) by (bit_vector);
+            assert(1u32 & 4u32 != 4u32) by (bit_vector);
+            assert(((1u32 | 2u32) | 4u32) & 4u32 == 4u32) by (bit_vector);
+            assert(((1u32 | 2u32) | 4u32) & 1u32 == 1u32) by (bit_vector);
+        }
+        pub proof fn lemma_pow10_bounds(k: nat)
+            requires k <= 18
+            ensures 1 <= pow(10, k) <= 1_000_000_000_000_000_000
+        {
+            vstd::arithmetic::power::lemma_pow_positive(10, k);
+            vstd::arithmetic::power::lemma_pow_increases(10, k, 18);
+            assert(pow(10, 18) == 1_000_000_000_000_000_000) by { reveal_with_fuel(vstd::arithmetic::power::pow, 20); }
+        }
+
+        impl LiquidFungibleResource {
+            /*@fn radix-engine-interface/src/blueprints/resource/resource.rs :: impl LiquidFungibleResource :: fn new
+            @sig
+                ensures ret.amount == amount
+            @*/
+            /*@fn radix-engine-interface/src/blueprints/resource/resource.rs :: impl LiquidFungibleResource :: fn take_by_amount
+            @sig
+                ensures
+                    take_ok(old(self).amount.v(), amount_to_take.v()) ==> ret is Ok,
+                    ret matches Ok(r) ==> take_ok(old(self).amount.v(), amount_to_take.v())
+                        && r.amount == amount_to_take
+                        && final(self).amount.v() == old(self).amount.v() - amount_to_take.v(),
+                    ret matches Err(e) ==> *final(self) == *old(self)
+                        && (old(self).amount.v() < amount_to_take.v() ==> e == (ResourceError::InsufficientBalance { requested: amount_to_take, actual: old(self).amount })),
+            @*/
+        }
+        /*@fn radix-engine-interface/src/blueprints/resource/mod.rs :: fn check_fungible_amount
+        @sig
+            requires divisibility <= 18
+            ensures ret == respects_divisibility(amount.v(), divisibility as int)
+        @entry
+            proof {
+                let b = pow(10, (18 - divisibility) as nat);
+                lemma_pow10_bounds((18 - divisibility) as nat);
+                if amount.v() >= 0 {
+                    // truncated remainder == mathematical remainder on a non-negative dividend
+                    vstd::arithmetic::div_mod::lemma_fundamental_div_mod(amount.v(), b);
+                    assert(trem(amount.v(), b) == amount.v() % b);
+                }
+            }
+        @*/
+
+        impl FungibleVaultBlueprint {
+            /*@fn radix-engine/src/blueprints/resource/fungible/fungible_vault.rs :: impl FungibleVaultBlueprint :: fn get_divisibility
+            @sig
+                requires wf_vault(old(api).state())
+                ensures
+                    ret matches Ok(d) ==> d as int == outer_divisibility(old(api).state())
+                        && final(api).state() == (State { handles: final(api).state().handles, ..old(api).state() })
+                        && final(api).state().handles =~= old(api).state().handles,
+                    ret is Err ==> final(api).state() == (State { handles: final(api).state().handles, ..old(api).state() }),
+                    handles_kept(old(api).state().handles, final(api).state().handles),
+                    ret matches Err(e) ==> !e.is_application_error(),
+            @entry
+                proof { lemma_flag_bits(); }
+            @*/
+            /*@fn radix-engine/src/blueprints/resource/fungible/fungible_vault.rs :: impl FungibleVaultBlueprint :: fn assert_not_frozen
+            @sig
+                requires wf_vault(old(api).state())
+                ensures
+                    ret is Ok ==> !frozen_for(old(api).state(), flags) && final(api).state().handles =~= old(api).state().handles,
+                    frozen_for(old(api).state(), flags) ==> ret is Err,
+                    // the blueprint itself refuses ONLY a vault that really is frozen for the operation
+                    ret matches Err(e) ==> (e.is_application_error() ==> frozen_for(old(api).state(), flags)
+                        && e == RuntimeError::ApplicationError(ApplicationError::VaultError(VaultError::VaultIsFrozen))),
+                    final(api).state() == (State { handles: final(api).state().handles, ..old(api).state() }),
+                    handles_kept(old(api).state().handles, final(api).state().handles),
+            @entry
+                proof { lemma_flag_bits(); }
+            @*/
+
+            /// FungibleVault::lock_fee / lock_contingent_fee
+            /*@fn radix-engine/src/blueprints/resource/fungible/fungible_vault.rs :: impl FungibleVaultBlueprint :: fn lock_fee
+            @sig
+                requires wf_vault(old(api).state())
+                ensures
+                    // whatever happens: force-write log and fee-reserve credits move TOGETHER, by this vault's balance and this amount
+                    handles_kept(old(api).state().handles, final(api).state().handles),
+                    final(api).state().features == old(api).state().features, final(api).state().outer == old(api).state().outer,
+                    final(api).state().costing == old(api).state().costing,
+                    // success with costing enabled: exactly `amount` left the liquid balance of an XRD vault, force-written, credited
+                    ret is Ok && old(api).state().costing ==> lock_fee_admissible(old(api).state(), amount)
+                        && fee_locked(old(api).state(), final(api).state(), amount, contingent),
+                    // success with costing disabled (preview): nothing is taken, nothing credited, nothing force-written
+                    ret is Ok && !old(api).state().costing ==> lock_fee_request_ok(old(api).state(), amount)
+                        && final(api).state().fields == old(api).state().fields && final(api).state().forced == old(api).state().forced
+                        && final(api).state().fee_locks == old(api).state().fee_locks && final(api).state().simulated == old(api).state().simulated + 1,
+                    // failure: no credit, nothing force-written (a balance write that was not closed is reverted with the transaction)
+                    ret is Err ==> final(api).state().forced == old(api).state().forced && final(api).state().fee_locks == old(api).state().fee_locks,
+                    // a request that is not admissible fails, before anything is written
+                    !lock_fee_request_ok(old(api).state(), amount) || (old(api).state().costing && !lock_fee_admissible(old(api).state(), amount))
+                        ==> ret is Err && final(api).state().fields == old(api).state().fields,
+                    // the blueprint's own errors are exactly the documented ones
+                    ret matches Err(e) ==> (e.is_application_error() ==> !lock_fee_admissible(old(api).state(), amount)
+                        && e == RuntimeError::ApplicationError(ApplicationError::VaultError(lock_fee_app_error(old(api).state(), amount)))),
+            @entry
+                proof { lemma_flag_bits(); }
+            @closure 1 := |e: ResourceError| -> (r: RuntimeError) ensures r == RuntimeError::ApplicationError(ApplicationError::VaultError(match e { ResourceError::InsufficientBalance { requested, actual } => VaultError::LockFeeInsufficientBalance { requested, actual }, _ => VaultError::ResourceError(e) }))
+            @*/
+        }
+        impl VerifPayload for LiquidFungibleResource {
+            open spec fn accepts(v: GhostVal) -> bool { v is Liquid }
+            open spec fn ghost(&self) -> GhostVal { GhostVal::Liquid(self.amount) }
+        }
+    }
+
+    // ==================================================================================================
+    // (5) composition: after a failed transaction the only substates that contribute updates are fields of
+    //     fungible vaults that were opened with FORCE_WRITE (= by lock_fee: liquid balances of XRD vaults that paid fees)
+    // ==================================================================================================
+    pub mod compose {
+        use vstd::prelude::*;
+        use super::super::env::*;
+        use super::super::env::sys::{KState, special_open_permitted, is_fungible_vault};
+
+        /// what the kernel does with substate handles during one transaction, as far as FORCE_WRITE is concerned
+        pub enum Step {
+            /// kernel_open_substate(_with_default) returned Ok(h): the handle is recorded with its flags (env::sys `opened`)
+            Open { h: u32, id: SubstateId, flags: LockFlags },
+            /// SubstateIO::close_substate(h) (contract proved in `unit::io`)
+            Close { h: u32 },
+        }
+        pub ghost struct K { pub handles: Map<u32, (SubstateId, LockFlags)>, pub forced: Set<SubstateId> }
+        pub open spec fn step(k: K, s: Step) -> K {
+            match s {
+                Step::Open { h, id, flags } => K { handles: k.handles.insert(h, (id, flags)), forced: k.forced },
+                Step::Close { h } => if k.handles.contains_key(h) {
+                    K { handles: k.handles.remove(h), forced: if fw(k.handles[h].1) { k.forced.insert(k.handles[h].0) } else { k.forced } }
+                } else { k },
+            }
+        }
+        pub open spec fn run(k: K, t: Seq<Step>) -> K decreases t.len() {
+            if t.len() == 0 { k } else { step(run(k, t.drop_last()), t.last()) }
+        }
+        /// the SENSITIVE-CALLEE precondition, for every open of the trace: FORCE_WRITE only on a permitted substate.
+        /// (`unit::sys` proves that actor_open_field / actor_open_key_value_entry / key_value_store_open_entry meet it.)
+        pub open spec fn guarded(t: Seq<Step>, p: spec_fn(SubstateId) -> bool) -> bool {
+            forall|i: int| 0 <= i < t.len() ==> ((#[trigger] t[i]) matches Step::Open { h, id, flags } ==> (fw(flags) ==> p(id)))
+        }
+        pub open spec fn k_ok(k: K, p: spec_fn(SubstateId) -> bool) -> bool {
+            &&& forall|h: u32| #[trigger] k.handles.contains_key(h) && fw(k.handles[h].1) ==> p(k.handles[h].0)
+            &&& forall|id: SubstateId| #[trigger] k.forced.contains(id) ==> p(id)
+        }
+        pub proof fn lemma_run_keeps_ok(k: K, t: Seq<Step>, p: spec_fn(SubstateId) -> bool)
+            requires k_ok(k, p), guarded(t, p)
+            ensures k_ok(run(k, t), p)
+            decreases t.len()
+        {
+            if t.len() > 0 {
+                let t0 = t.drop_last();
+                assert forall|i: int| 0 <= i < t0.len() implies ((#[trigger] t0[i]) matches Step::Open { h, id, flags } ==> (fw(flags) ==> p(id))) by {
+                    assert(t0[i] == t[i]);
+                }
+                lemma_run_keeps_ok(k, t0, p);
+                let k1 = run(k, t0);
+                let s = t.last();
+                assert(s == t[t.len() - 1]);
+                let k2 = step(k1, s);
+                assert(k_ok(k2, p)) by {
+                    assert forall|h: u32| #[trigger] k2.handles.contains_key(h) && fw(k2.handles[h].1) implies p(k2.handles[h].0) by {
+                        match s {
+                            Step::Open { h: h0, id, flags } => { if h != h0 { assert(k1.handles.contains_key(h)); } }
+                            Step::Close { h: h0 } => { assert(k1.handles.contains_key(h)); }
+                        }
+                    }
+                    assert forall|id: SubstateId| #[trigger] k2.forced.contains(id) implies p(id) by {
+                        match s {
+                            Step::Open { .. } => {}
+                            Step::Close { h: h0 } => { if k1.handles.contains_key(h0) && !k1.forced.contains(id) { assert(fw(k1.handles[h0].1) && k1.handles[h0].0 == id); } }
+                        }
+                    }
+                }
+            }
+        }
+        /// the model is not vacuous: open with FORCE_WRITE, close ==> the substate IS in the force-write log (and survives)
+        pub proof fn lemma_model_records_force_write(id: SubstateId)
+            ensures run(K { handles: Map::empty(), forced: Set::empty() },
+                        seq![Step::Open { h: 1u32, id, flags: LockFlags { bits: 7 } }, Step::Close { h: 1u32 }]).forced.contains(id),
+                    !run(K { handles: Map::empty(), forced: Set::empty() },
+                        seq![Step::Open { h: 1u32, id, flags: LockFlags { bits: 1 } }, Step::Close { h: 1u32 }]).forced.contains(id),
+        {
+            assert(7u32 & 4u32 == 4u32) by (bit_vector);
+            assert(1u32 & 4u32 != 4u32) by (bit_vector);
+            let k0 = K { handles: Map::empty(), forced: Set::empty() };
+            let t = seq![Step::Open { h: 1u32, id, flags: LockFlags { bits: 7 } }, Step::Close { h: 1u32 }];
+            let u = seq![Step::Open { h: 1u32, id, flags: LockFlags { bits: 1 } }, Step::Close { h: 1u32 }];
+            reveal_with_fuel(run, 4);
+            assert(t.drop_last() =~= seq![t[0]]);
+            assert(t.drop_last().drop_last() =~= Seq::<Step>::empty());
+            assert(u.drop_last() =~= seq![u[0]]);
+            assert(u.drop_last().drop_last() =~= Seq::<Step>::empty());
+        }
+        /// unit c02_result_type, MappedTrack::revert_non_force_write_changes: "every remaining tracked substate either carries
+        /// exactly the value recorded under FORCE_WRITE, or contributes no update at all" (+ c12_tracked_substate: update
+        /// emitted <==> written) -- abstractly: the substates that contribute updates after the revert are in the force-write log
+        pub open spec fn reverted(updates: Set<SubstateId>, forced: Set<SubstateId>) -> bool {
+            forall|id: SubstateId| #[trigger] updates.contains(id) ==> forced.contains(id)
+        }
+        /// C02, composed: a transaction that starts with no open handle and an empty force-write log, all of whose opens
+        /// went through the guarded doors, and that FAILS (track reverted): every substate that still contributes an update
+        /// is a FIELD of an object whose blueprint is the native fungible vault.
+        pub proof fn lemma_failed_transaction_updates_only_vault_fields(s: KState, t: Seq<Step>, updates: Set<SubstateId>)
+            requires
+                guarded(t, |id: SubstateId| special_open_permitted(s, id.0, id.2)),
+                reverted(updates, run(K { handles: Map::empty(), forced: Set::empty() }, t).forced),
+            ensures
+                forall|id: SubstateId| #[trigger] updates.contains(id) ==> id.2 is Field && is_fungible_vault(s, id.0),
+        {
+            let p = |id: SubstateId| special_open_permitted(s, id.0, id.2);
+            let k0 = K { handles: Map::empty(), forced: Set::empty() };
+            lemma_run_keeps_ok(k0, t, p);
+            assert forall|id: SubstateId| #[trigger] updates.contains(id) implies id.2 is Field && is_fungible_vault(s, id.0) by {
+                assert(run(k0, t).forced.contains(id));
+                assert(p(id));
+            }
+        }
+        /// and nothing is force-written at all when no open ever carried FORCE_WRITE (e.g. a transaction that never locked a fee)
+        pub proof fn lemma_no_force_write_no_update(t: Seq<Step>, updates: Set<SubstateId>)
+            requires
+                guarded(t, |id: SubstateId| false),
+                reverted(updates, run(K { handles: Map::empty(), forced: Set::empty() }, t).forced),
+            ensures updates =~= Set::<SubstateId>::empty(),
+        {
+            let p = |id: SubstateId| false;
+            let k0 = K { handles: Map::empty(), forced: Set::empty() };
+            lemma_run_keeps_ok(k0, t, p);
+            assert forall|id: SubstateId| !updates.contains(id) by {
+                if updates.contains(id) { assert(run(k0, t).forced.contains(id)); assert(p(id)); }
+            }
         }
     }
 
